@@ -37,13 +37,21 @@ structure Cfg where
   blockInit : EV
   /-- initial value of `best_c1` in the 2-D sweep -/
   sweepInit : EV
+  /-- repaired 2-D sweep (`first_run or g_min_c1 < best_c1`): the first run is accepted unconditionally.
+  `false` = the code as it is. -/
+  sweepFirst : Bool := false
 
-def stdCfg (S : Nat) : Cfg where
+/-- the code's float configuration at scale `S`.  The two switches describe repaired versions of the code
+(both `false` = the code as it is):
+* `wide`: the effective dtype follows the data (`float64` for non-float32 data), i.e. the cast is exact;
+* `sweepFirst`: the 2-D sweep accepts its first run unconditionally. -/
+def stdCfg (S : Nat) (wide : Bool := false) (sweepFirst : Bool := false) : Cfg where
   one := 2 ^ S
-  cast := castF32 S
+  cast := if wide then fun v => v else castF32 S
   key := sumKeyF S
   blockInit := EV.fin (c1e30F32 * 2 ^ S)
   sweepInit := EV.fin (c1e308 * 2 ^ S)
+  sweepFirst := sweepFirst
 
 inductive Goal where
   | min | max | diff | minPPF | maxPPF
@@ -133,6 +141,17 @@ def sweepGo : EV → List (List Item) → List Nat
 
 def sweep2 (B : EV) (L : List Item) : List Nat :=
   sweepGo B (runs (isort (fun x y => EV.le (cell x.2 0) (cell y.2 0)) L))
+
+/-- repaired loop (`first_run or g_min_c1 < best_c1`): the first run is always accepted. -/
+def sweepGoFirst : List (List Item) → List Nat
+  | [] => []
+  | [] :: Rs => sweepGoFirst Rs
+  | (x :: xs) :: Rs =>
+    let g := colMin 1 (cell x.2 1) xs
+    (((x :: xs).filter fun y => cell y.2 1 == g).map (·.1)) ++ sweepGo g Rs
+
+def sweep2F (L : List Item) : List Nat :=
+  sweepGoFirst (runs (isort (fun x y => EV.le (cell x.2 0) (cell y.2 0)) L))
 
 /-! ## general path: sum-sorted block-nested-loop filter -/
 
@@ -231,7 +250,7 @@ def groupCore (cfg : Cfg) (d : Nat) (G : List Item) : List Nat :=
   | .trivial => G.map (·.1)
   | .one k => path1 k G
   | .all => G.map (·.1)
-  | .sweep vs => sweep2 cfg.sweepInit (localOf vs G)
+  | .sweep vs => if cfg.sweepFirst then sweep2F (localOf vs G) else sweep2 cfg.sweepInit (localOf vs G)
   | .general vs => bnlBlocks cfg vs.length (localOf vs G)
 
 def groupBranch (d : Nat) (G : List Item) : String :=
